@@ -24,8 +24,8 @@ def run(tier):
     quick = tier != "thorough"
     vlib.build_harness()
     sc = vlib.scratch("c09")
-    mc = vlib.tlc_mc("MC_ConfigCenter.tla", "MC_ConfigCenter_c09.cfg", name="c09_mc", timeout=3000)
-    vlib.require_actions(mc, ["Publish", "Remove", "Import"])
+    mc = vlib.tlc_mc("MC_ConfigCenter.tla", "MC_ConfigCenter_c09_quick.cfg" if quick else "MC_ConfigCenter_c09.cfg", name="c09_mc", timeout=3000)
+    vlib.require_actions(mc, ["Publish", "Remove", "Import", "Echo"])
     c.add_mc(mc)
     beh = vlib.tlc_sim("SimConfigCenter.tla", "SIM_ConfigCenter_c09.cfg", num=60 if quick else 600, depth=40, seed=c.seed, name="c09_sim")
     rnd = random.Random(c.seed)
@@ -43,11 +43,13 @@ def run(tier):
     c.assumptions += [
         "md5 modelled as identity on contents; the replay checks md5(content) on the real values",
         "paging is checked per tenant (every API passes a tenant); every (offset, limit) window over every filter class",
-        "SetTmpValue (follower echo) is outside this property's quantifier and is covered by C06",
+        "the follower's echo of a routed publish (SetTmpValue) is an environment step of the model (Echo): it is not judged "
+        "itself - a key that only holds an echoed value is served by a read and not listed, as coded - but publishes, removes "
+        "and imports are judged in the states it leads to (C06 covers the echo's own race)",
     ]
     shutil.rmtree(sc, ignore_errors=True)
     return c.finish(
-        rule="behaviours = TLC simulation of ConfigCenter.tla (publish / remove / import over 6 keys in 2 tenants and 3 "
+        rule="behaviours = TLC simulation of ConfigCenter.tla (publish / remove / import / echo over 6 keys in 2 tenants and 3 "
              "groups), replayed on a real ConfigActor; after EVERY step: GET of every key (content, md5, type), change "
              "history in every window, and for every tenant and filter (none, exact group, exact dataId, substring) every "
              "(offset, limit) page window is compared with the slice of the spec's listing; non-trivial = touches >= 3 keys",
